@@ -5,7 +5,7 @@
    by the eigen-equation hypothesis); phi = W^{-1/2} u = [back s u]. *)
 From Coq Require Import List Reals QArith.
 From FDAV Require Import Base.Num Base.Vec Base.Quad Model.Ufpca
-  Lemmas.Vec Lemmas.Quad Lemmas.Gram Lemmas.Ufpca.
+  Lemmas.Vec Lemmas.Quad Lemmas.Gram Lemmas.Ufpca Gen.TrapzWeights Lemmas.GenTrapzWeights Lemmas.UfpcaSource.
 Import ListNotations.
 Local Open Scope R_scope.
 
@@ -62,6 +62,22 @@ Proof. exact gram_route_unit. Qed.
 Print Assumptions C02_gram_route_unit.
 (* "the eigenfunctions ARE the combinations X^T v / sqrt(l)" is the definition [gram_phi]; the tie
    checks the code against it. *)
+
+(* ---------- on the quadrature weights the SOURCE computes now (Gen/TrapzWeights.v, translated from
+   _integration_weights(x, "trapz") on this run; UFPCA's covariance method calls exactly that) ----------
+   the back-transformed eigenvectors are orthonormal for the trapezoid inner product of the grid itself, and the
+   eigen-equation is the integral equation discretised with those weights *)
+Theorem C02_cov_orthonormal_source_weights : forall x s u v, (2 <= length x)%nat ->
+  roots s (gen_trapz_weights opsR x) -> length u = length s -> length v = length s ->
+  inner opsR x (back opsR s u) (back opsR s v) = dot opsR u v.
+Proof. exact cov_orthonormal_source. Qed.
+Print Assumptions C02_cov_orthonormal_source_weights.
+Theorem C02_cov_eigen_equation_source_weights : forall x s C u lam, (2 <= length x)%nat ->
+  roots s (gen_trapz_weights opsR x) -> length C = length s -> length u = length s ->
+  mv opsR (sym_scale opsR s C) u = vscale opsR lam u ->
+  mv opsR C (vmul opsR (gen_trapz_weights opsR x) (back opsR s u)) = vscale opsR lam (back opsR s u).
+Proof. exact cov_eigen_equation_source. Qed.
+Print Assumptions C02_cov_eigen_equation_source_weights.
 
 Local Close Scope R_scope.
 Local Open Scope Q_scope.
